@@ -177,7 +177,7 @@ CLAIMS = {
     'C10': dict(
         technique='Coq proofs over the circuit-edit model: exhaustive resolve theorems for all cells of the five libraries; view of every reachable circuit is a well-formed netlist; copy/pickle preserve the pin-equivalent view, names and every solution; fork elimination preserves the function (id-based semantics, both directions) and the interface set; machine-checked witness for the state-order defect; view / s_names correspondence on edit histories; differential truth tables; all library cell definitions',
         text='Proof (copy, pickle, fork elimination, substitute on arbitrary implementations full; library clause full by exhaustive evaluation). '
-             'SUBSTITUTE, ANY IMPLEMENTATION (round 3, Properties/C10.v section 6): C10_substitute_function_full -- for every successful substitute call on a consistent host and a consistent implementation of the documented shape (subst_shape_b, pure_ports_b: every port has one pin), ANY subset of connected instance pins, clean-up included, in every value domain where BUF1 copies: the result is consistent, io and port names / order are unchanged, every node is a host node or the renamed copy of an implementation node, and the solutions of the result are exactly the host valuations in which the instance is read as the implementation function of its pins (unconnected input reads zero) -- both directions, agreeing on every surviving host line; the only exclusion is d22_free_b (known finding D22, refuted companion C10_substitute_d22_refuted); remove_dangling_nodes and the clean-up loop preserve the function with no assumption (C10_remove_dangling_function, C10_cleanup_function); D21 / D29 / pure-ports necessity are machine-checked witnesses; the split model (substitute = substitute_pre ; cleanup), all hypothesis checkers and the structural description are evaluated on every generated substitute case against the real Circuit. RESOLVE LOOP (Properties/C10.v section 7): C10_resolve_function -- for every consistent host, every library table whose implementations satisfy the per-call hypotheses (lib_ok_sem_b, lib_total_b: PROVED for the complete tables of the five regenerated libraries, C10_lib_tables_ok) and no D22 instance, the WHOLE loop of resolve_tlib_cells (snapshot of the node list, instances deleted by an earlier clean-up are skipped) ends consistent, with io unchanged and no library kind left, and the solutions of the result are exactly the host valuations in which EVERY library instance is read through its implementation (both directions, equal observations at every kept node, ports included: C10_resolve_ports_kept); compared per case with the real resolve_tlib_cells incl. the number of substitute calls, on one-instance and multi-instance hosts (creation order unrelated to signal flow, unconnected pins, clean-ups deleting instances before their turn) with a hierarchical oracle. '
+             'SUBSTITUTE, ANY IMPLEMENTATION (round 3, Properties/C10.v section 6): C10_substitute_function_full -- for every successful substitute call on a consistent host and a consistent implementation of the documented shape (subst_shape_b, pure_ports_b: every port has one pin), ANY subset of connected instance pins, clean-up included, in every value domain where BUF1 copies: the result is consistent, io and port names / order are unchanged, every node is a host node or the renamed copy of an implementation node, and the solutions of the result are exactly the host valuations in which the instance is read as the implementation function of its pins (unconnected input reads zero) -- both directions, agreeing on every surviving host line; the only exclusion is d22_free_b (known finding D22, refuted companion C10_substitute_d22_refuted); remove_dangling_nodes and the clean-up loop preserve the function with no assumption (C10_remove_dangling_function, C10_cleanup_function); D21 / D29 / pure-ports necessity are machine-checked witnesses; the split model (substitute = substitute_pre ; cleanup), all hypothesis checkers and the structural description are evaluated on every generated substitute case against the real Circuit. COMPOSITION resolve ; eliminate (section 8): since fix 05399b6 (D38) eliminate_1to1_forks keeps a fork without driver -- the stub fork that resolving an instance with an unconnected input leaves behind -- instead of raising; the precondition of every elimination theorem got weaker accordingly (a one-reader fork may have no driver), C10_eliminate_driverless_fork_kept is the witness (old behaviour: None), and the C09 / C10 streams eliminate after every resolve with open input pins. RESOLVE LOOP (Properties/C10.v section 7): C10_resolve_function -- for every consistent host, every library table whose implementations satisfy the per-call hypotheses (lib_ok_sem_b, lib_total_b: PROVED for the complete tables of the five regenerated libraries, C10_lib_tables_ok) and no D22 instance, the WHOLE loop of resolve_tlib_cells (snapshot of the node list, instances deleted by an earlier clean-up are skipped) ends consistent, with io unchanged and no library kind left, and the solutions of the result are exactly the host valuations in which EVERY library instance is read through its implementation (both directions, equal observations at every kept node, ports included: C10_resolve_ports_kept); compared per case with the real resolve_tlib_cells incl. the number of substitute calls, on one-instance and multi-instance hosts (creation order unrelated to signal flow, unconnected pins, clean-ups deleting instances before their turn) with a hierarchical oracle. '
              'BRIDGE: for every circuit reachable by an edit history the netlist view (what the simulators read) is a well-formed netlist (C10_view_wf, C10_history_view_wf), so the C01/C07/C17 theorems apply to it. '
              'COPY / PICKLE: the result has the same node count and kinds, the same line table and io list, the same connected pins at every position (exact equality can fail only by a trailing None: C10_copy_view_not_equal), '
              'the same names position by position and the same s_nodes names; hence for ANY value domain the gate-by-gate solutions coincide (C10_copy_solution, C10_pickle_solution). '
